@@ -412,9 +412,15 @@ theorem direct_accepts_implies_indirect (check : Bool) (H : Bytes → Bytes) (is
     | none => simp [hb] at this
     | some b => rfl
 
-/-- **same_submissions_accepted_partial.** Where the external-storage `BuildLogLeaf` has the encoding check (regenerated
-flag, as a hypothesis: it is `false` on the tree as found), the two modes accept exactly the same submissions. -/
-theorem same_submissions_accepted_partial (hflag : Gen.indirectBuildChecksEncoding = true)
+/-- **encoding_check_present** (regenerated from services.go on every run): the external-storage `BuildLogLeaf` refuses,
+before anything is stored, a chain whose in-backend extra data cannot be TLS-encoded
+(`fix: external issuance-chain storage refuses a chain whose extra data cannot be TLS-encoded`, 0449619). On a tree
+without the check this is `false`, this theorem and the next stop compiling, and `TestVerifC14Oversized` shows the
+poisoned range (in-backend mode 500, external-storage mode 200, the sequenced entry unreadable for good). -/
+theorem encoding_check_present : Gen.indirectBuildChecksEncoding = true := rfl
+
+/-- the flag-generic form -/
+theorem same_submissions_accepted_of_flag (hflag : Gen.indirectBuildChecksEncoding = true)
     (H : Bytes → Bytes) (isPrecert : Bool) (cert : Bytes) (chain : List Bytes)
     (hH : (H (derChain chain)).length ≤ 256) :
     (buildIndirectC Gen.indirectBuildChecksEncoding H isPrecert cert chain).isSome = true ↔ (buildDirect isPrecert cert chain).isSome = true := by
@@ -430,14 +436,14 @@ theorem same_submissions_accepted_partial (hflag : Gen.indirectBuildChecksEncodi
     | none => simp [hd] at h
     | some dx => exact direct_accepts_implies_indirect _ H isPrecert cert chain dx hH hd
 
-/- FULL ("for the same submission"): `same_submissions_accepted_partial` without `hflag`, i.e. with
-     theorem encoding_check_present : Gen.indirectBuildChecksEncoding = true := rfl
-   FALSE on the tree as found: the external-storage mode only DER-encodes the chain at submission, so it accepts a chain
-   whose `certificate_chain` body is above 2^24−1 bytes (or contains a certificate the TLS form cannot carry); the
-   in-backend mode refuses that submission (500). The entry is sequenced, can never be served, and every get-entries
-   range containing it fails — a poisoned range. Finding, known_findings.d/C14.json, fixes/C14-3.diff; reproduced end to
-   end by `TestVerifC14Oversized` (two 8.4 MB intermediates through the real add-chain). With the fix the flag
-   regenerates to `true`, `encoding_check_present` compiles and `hflag` can be dropped (checked on the patched scratch tree). -/
+/-- **same_submissions_accepted** ("for the same submission"): the two modes accept exactly the same submissions — in
+particular the external-storage mode never sequences an entry whose extra data it could not serve later. -/
+theorem same_submissions_accepted (H : Bytes → Bytes) (isPrecert : Bool) (cert : Bytes) (chain : List Bytes)
+    (hH : (H (derChain chain)).length ≤ 256) :
+    (buildIndirectC Gen.indirectBuildChecksEncoding H isPrecert cert chain).isSome = true ↔ (buildDirect isPrecert cert chain).isSome = true :=
+  same_submissions_accepted_of_flag encoding_check_present H isPrecert cert chain hH
+
+/-- without the check (the tree before 0449619) a chain with an unencodable certificate was accepted by one mode only -/
 example : (buildIndirectC false exH false exCert [[]]).isSome = true ∧ buildDirect false exCert [[]] = none ∧
     buildIndirectC true exH false exCert [[]] = none := by decide
 
